@@ -325,8 +325,12 @@ def aba_cases(ctx, instrs, n_each, seed):
             a, b = g.state(depth=3), g.state(depth=3)
             for s in (a, b):
                 s["int"] = [g.r.randint(1, 9), g.r.randint(0, 5), g.r.randint(1, 4)] + s["int"]
-                s["float"] = [gen.f2b(g.r.choice([0.5, 1.0, 2.0, 0.25])), gen.f2b(g.r.choice([0.0, 1.0, 3.0]))] + s["float"]
+                s["float"] = [gen.f2b(g.r.choice([0.5, 1.0, 2.0, 0.25])), gen.f2b(g.r.choice([0.0, 1.0, 3.0])), gen.f2b(g.r.choice([1.0, 2.0, 0.5, 4.0]))] + s["float"]
+                s["bvec"] = [g.bvec(), g.bvec()] + s["bvec"]; s["ivec"] = [g.ivec(), g.ivec()] + s["ivec"]; s["fvec"] = [g.fvec(), g.fvec()] + s["fvec"]
+                s["bool"] = [True] + s["bool"]
                 s["exec"] = [ins(name)]
+            if a["int"][:3] == b["int"][:3] and a["float"][:3] == b["float"][:3]:
+                b["int"][0] += 1
             for tag, s in (("a1", a), ("b", b), ("a2", a)):
                 cases.append({"id": "aba-%s-%d-%s" % (name, i, tag), "pre": s, "acts": [{"a": "step"}]})
     return cases
@@ -1331,7 +1335,7 @@ def run_c15(ctx):
     for name in [n for n in ctx.registry if n.startswith("CODE.") or n.startswith("EXEC.")] + ["NAME.QUOTE", "INTEGER.DEFINE", "LIST.ADD", "LIST.IVAL", "LIST.GET"]:
         if name == "EXEC.CMD":
             continue
-        for d in ((30, 45) if q else (26, 30, 40, 60, 90)):
+        for d in ((30, 45) if q else (26, 30, 40, 50, 55)):      # (JSON nesting: two levels per list level, limit 128)
             a, b = deep(d, I(1)), deep(d, I(2))
             # searches that SUCCEED deep inside (both operand orders), next to those that fail
             for k2, code in enumerate(([a, I(1), a], [I(1), a, I(1)], [a, deep(3, I(1)), a])):
